@@ -149,6 +149,7 @@ def run(ctx, built):
     ES.stream_sample1(ctx, built, ctx.scale(8, 100))
     ES.stream_sampleN(ctx, built, ctx.scale(10, 120))
     ES.stream_sampleD(ctx, built, ctx.scale(8, 100))
+    ES.stream_sample1(ctx, built, ctx.scale(10, 120), name="S-sampleRaw", raw=True)
 
 
 def search(ctx, seeds):
